@@ -1,5 +1,449 @@
 package main
 
+// Structural extraction: lock programs of the registries, writes to receiver fields and
+// package-level variables, explicit panics / unchecked type assertions, deferred recovers and
+// map ranges with order-sensitive bodies.
+
+import (
+	"fmt"
+	"go/ast"
+	"go/token"
+	"sort"
+	"strings"
+)
+
+func exprString(e ast.Expr) string {
+	switch x := e.(type) {
+	case *ast.Ident:
+		return x.Name
+	case *ast.SelectorExpr:
+		return exprString(x.X) + "." + x.Sel.Name
+	case *ast.IndexExpr:
+		return exprString(x.X) + "[]"
+	case *ast.StarExpr:
+		return "*" + exprString(x.X)
+	case *ast.ParenExpr:
+		return exprString(x.X)
+	case *ast.CallExpr:
+		return exprString(x.Fun) + "()"
+	}
+	return "?"
+}
+
+func rootIdent(e ast.Expr) string {
+	switch x := e.(type) {
+	case *ast.Ident:
+		return x.Name
+	case *ast.SelectorExpr:
+		return rootIdent(x.X)
+	case *ast.IndexExpr:
+		return rootIdent(x.X)
+	case *ast.StarExpr:
+		return rootIdent(x.X)
+	case *ast.ParenExpr:
+		return rootIdent(x.X)
+	}
+	return ""
+}
+
+// ---- lock programs ----
+
+func lockProgram(fd *ast.FuncDecl, mapField string) []string {
+	recv := ""
+	if fd.Recv != nil && len(fd.Recv.List[0].Names) == 1 {
+		recv = fd.Recv.List[0].Names[0].Name
+	}
+	var prog, deferred []string
+	isMutexCall := func(ce *ast.CallExpr) string {
+		sel, ok := ce.Fun.(*ast.SelectorExpr)
+		if !ok {
+			return ""
+		}
+		if inner, ok := sel.X.(*ast.SelectorExpr); ok && rootIdent(inner) == recv && inner.Sel.Name == "mutex" {
+			return sel.Sel.Name
+		}
+		return ""
+	}
+	var walkExpr func(e ast.Node, write bool)
+	walkExpr = func(n ast.Node, write bool) {
+		ast.Inspect(n, func(m ast.Node) bool {
+			switch x := m.(type) {
+			case *ast.IndexExpr:
+				if sel, ok := x.X.(*ast.SelectorExpr); ok && rootIdent(sel) == recv && sel.Sel.Name == mapField {
+					if write {
+						prog = append(prog, "MapWrite")
+					} else {
+						prog = append(prog, "MapRead")
+					}
+					return false
+				}
+			}
+			return true
+		})
+	}
+	var walk func(stmts []ast.Stmt)
+	walk = func(stmts []ast.Stmt) {
+		for _, st := range stmts {
+			switch s := st.(type) {
+			case *ast.ExprStmt:
+				if ce, ok := s.X.(*ast.CallExpr); ok {
+					if m := isMutexCall(ce); m != "" {
+						prog = append(prog, m)
+						continue
+					}
+				}
+				walkExpr(s, false)
+			case *ast.DeferStmt:
+				if m := isMutexCall(s.Call); m != "" {
+					deferred = append([]string{m}, deferred...)
+					continue
+				}
+			case *ast.AssignStmt:
+				for _, r := range s.Rhs {
+					walkExpr(r, false)
+				}
+				for _, l := range s.Lhs {
+					walkExpr(l, true)
+				}
+			case *ast.IfStmt:
+				if s.Init != nil {
+					walk([]ast.Stmt{s.Init})
+				}
+				walkExpr(s.Cond, false)
+				// branches that return or panic do not continue; their map reads are recorded
+				walk(s.Body.List)
+			case *ast.RangeStmt:
+				if sel, ok := s.X.(*ast.SelectorExpr); ok && rootIdent(sel) == recv && sel.Sel.Name == mapField {
+					prog = append(prog, "MapRead")
+				}
+				walk(s.Body.List)
+			case *ast.ReturnStmt:
+				for _, r := range s.Results {
+					walkExpr(r, false)
+				}
+			default:
+				walkExpr(st, false)
+			}
+		}
+	}
+	walk(fd.Body.List)
+	return append(prog, deferred...)
+}
+
+func genLockPrograms(b *strings.Builder) {
+	type reg struct{ pkg, recv, mapField string }
+	regs := []reg{
+		{"pkg/vdr/sidetreelongform/dochandler/protocol/nsprovider", "Provider", "clients"},
+		{"pkg/vdr/sidetreelongform/dochandler/protocolversion/clientregistry", "Registry", "factories"},
+	}
+	var items []string
+	for _, rg := range regs {
+		p := loadPkg(rg.pkg)
+		var names []string
+		progs := map[string][]string{}
+		for _, f := range p.files {
+			for _, d := range f.Decls {
+				fd, ok := d.(*ast.FuncDecl)
+				if !ok || fd.Recv == nil || typeName(fd.Recv.List[0].Type) != rg.recv {
+					continue
+				}
+				pr := lockProgram(fd, rg.mapField)
+				if len(pr) == 0 {
+					continue
+				}
+				names = append(names, fd.Name.Name)
+				progs[fd.Name.Name] = pr
+			}
+		}
+		sort.Strings(names)
+		for _, n := range names {
+			items = append(items, fmt.Sprintf("(%s, [%s])", coqString(rg.recv+"."+n), strings.Join(progs[n], "; ")))
+		}
+	}
+	fmt.Fprintf(b, "Definition gen_lock_programs : list (string * list instr) := [\n  %s].\n", strings.Join(items, ";\n  "))
+}
+
+// ---- writes ----
+
+func pkgLevelVars(p *pkgSrc) map[string]bool {
+	out := map[string]bool{}
+	for _, f := range p.files {
+		for _, d := range f.Decls {
+			if gd, ok := d.(*ast.GenDecl); ok && gd.Tok == token.VAR {
+				for _, s := range gd.Specs {
+					for _, n := range s.(*ast.ValueSpec).Names {
+						out[n.Name] = true
+					}
+				}
+			}
+		}
+	}
+	return out
+}
+
+func genWrites(b *strings.Builder) {
+	pkgs := []string{
+		"pkg/versions/1_0/operationparser", "pkg/versions/1_0/operationparser/patchvalidator", "pkg/versions/1_0/operationapplier",
+		"pkg/versions/1_0/doccomposer", "pkg/versions/1_0/doctransformer/didtransformer", "pkg/versions/1_0/doctransformer/doctransformer",
+		"pkg/versions/1_0/doctransformer/metadata", "pkg/vdr/sidetreelongform/dochandler", "pkg/vdr/sidetreelongform",
+		"pkg/hashing", "pkg/commitment", "pkg/canonicalizer", "pkg/internal/jsoncanonicalizer", "pkg/jwsutil", "pkg/patch", "pkg/document",
+		"pkg/docutil", "pkg/versions/1_0/model",
+	}
+	var recvWrites, globalWrites []string
+	for _, pk := range pkgs {
+		p := loadPkg(pk)
+		globals := pkgLevelVars(p)
+		for _, f := range p.files {
+			for _, d := range f.Decls {
+				fd, ok := d.(*ast.FuncDecl)
+				if !ok || fd.Body == nil {
+					continue
+				}
+				recv := ""
+				if fd.Recv != nil && len(fd.Recv.List[0].Names) == 1 {
+					recv = fd.Recv.List[0].Names[0].Name
+				}
+				// locals shadowing globals
+				locals := map[string]bool{}
+				for _, fl := range fd.Type.Params.List {
+					for _, n := range fl.Names {
+						locals[n.Name] = true
+					}
+				}
+				ast.Inspect(fd.Body, func(n ast.Node) bool {
+					if as, ok := n.(*ast.AssignStmt); ok && as.Tok == token.DEFINE {
+						for _, l := range as.Lhs {
+							if id, ok := l.(*ast.Ident); ok {
+								locals[id.Name] = true
+							}
+						}
+					}
+					return true
+				})
+				record := func(target ast.Expr) {
+					root := rootIdent(target)
+					if root == "" || root == "_" {
+						return
+					}
+					name := fmt.Sprintf("%s:%s", pk[strings.LastIndex(pk, "/")+1:], fd.Name.Name)
+					if recv != "" && root == recv {
+						if _, isSel := target.(*ast.Ident); !isSel {
+							recvWrites = append(recvWrites, fmt.Sprintf("(%s, %s)", coqString(name), coqString(exprString(target))))
+						}
+					} else if globals[root] && !locals[root] {
+						globalWrites = append(globalWrites, fmt.Sprintf("(%s, %s)", coqString(name), coqString(exprString(target))))
+					}
+				}
+				ast.Inspect(fd.Body, func(n ast.Node) bool {
+					switch s := n.(type) {
+					case *ast.AssignStmt:
+						if s.Tok != token.DEFINE {
+							for _, l := range s.Lhs {
+								record(l)
+							}
+						}
+					case *ast.IncDecStmt:
+						record(s.X)
+					}
+					return true
+				})
+			}
+		}
+	}
+	sort.Strings(recvWrites)
+	sort.Strings(globalWrites)
+	fmt.Fprintf(b, "Definition gen_receiver_writes : list (string * string) := [%s].\n", strings.Join(recvWrites, "; "))
+	fmt.Fprintf(b, "Definition gen_global_writes : list (string * string) := [%s].\n", strings.Join(globalWrites, "; "))
+}
+
+// ---- panic-capable sites and recovers ----
+
+func genSites(b *strings.Builder) {
+	pkgs := []string{
+		"pkg/versions/1_0/operationparser", "pkg/versions/1_0/operationparser/patchvalidator", "pkg/versions/1_0/operationapplier",
+		"pkg/versions/1_0/doccomposer", "pkg/versions/1_0/doctransformer/didtransformer", "pkg/versions/1_0/doctransformer/metadata",
+		"pkg/vdr/sidetreelongform/dochandler", "pkg/hashing", "pkg/commitment", "pkg/canonicalizer", "pkg/internal/jsoncanonicalizer",
+		"pkg/jwsutil", "pkg/patch", "pkg/document", "pkg/docutil", "pkg/versions/1_0/model", "pkg/encoder", "pkg/jws",
+	}
+	var sites, recovers []string
+	for _, pk := range pkgs {
+		p := loadPkg(pk)
+		for _, f := range p.files {
+			for _, d := range f.Decls {
+				fd, ok := d.(*ast.FuncDecl)
+				if !ok || fd.Body == nil {
+					continue
+				}
+				name := fmt.Sprintf("%s:%s", pk[strings.LastIndex(pk, "/")+1:], fd.Name.Name)
+				checked := map[*ast.TypeAssertExpr]bool{}
+				ast.Inspect(fd.Body, func(n ast.Node) bool {
+					switch s := n.(type) {
+					case *ast.AssignStmt:
+						if len(s.Lhs) == 2 && len(s.Rhs) == 1 {
+							if ta, ok := s.Rhs[0].(*ast.TypeAssertExpr); ok {
+								checked[ta] = true
+							}
+						}
+					case *ast.ValueSpec:
+						if len(s.Names) == 2 && len(s.Values) == 1 {
+							if ta, ok := s.Values[0].(*ast.TypeAssertExpr); ok {
+								checked[ta] = true
+							}
+						}
+					case *ast.TypeSwitchStmt:
+						ast.Inspect(s.Assign, func(m ast.Node) bool {
+							if ta, ok := m.(*ast.TypeAssertExpr); ok {
+								checked[ta] = true
+							}
+							return true
+						})
+					}
+					return true
+				})
+				ast.Inspect(fd.Body, func(n ast.Node) bool {
+					switch s := n.(type) {
+					case *ast.TypeAssertExpr:
+						if !checked[s] && s.Type != nil {
+							sites = append(sites, fmt.Sprintf("(%s, %s)", coqString(name), coqString("assert:"+exprString(s.X))))
+						}
+					case *ast.CallExpr:
+						if id, ok := s.Fun.(*ast.Ident); ok && id.Name == "panic" {
+							sites = append(sites, fmt.Sprintf("(%s, %s)", coqString(name), coqString("panic")))
+						}
+						if id, ok := s.Fun.(*ast.Ident); ok && id.Name == "recover" {
+							recovers = append(recovers, coqString(name))
+						}
+					}
+					return true
+				})
+			}
+		}
+	}
+	sort.Strings(sites)
+	sort.Strings(recovers)
+	fmt.Fprintf(b, "Definition gen_panic_sites : list (string * string) := [%s].\n", strings.Join(sites, "; "))
+	fmt.Fprintf(b, "Definition gen_recover_sites : list string := [%s].\n", strings.Join(recovers, "; "))
+}
+
+// ---- map ranges whose body is order-sensitive ----
+
+func funcResultIsMap(p *pkgSrc, name string) bool {
+	fd := findFunc(p, "", name)
+	if fd == nil || fd.Type.Results == nil || len(fd.Type.Results.List) == 0 {
+		return false
+	}
+	_, ok := fd.Type.Results.List[0].Type.(*ast.MapType)
+	return ok
+}
+
+// sortedLater reports whether the function calls sort.Strings / sort.Slice / sort.Sort on the variable.
+func sortedLater(fd *ast.FuncDecl, name string) bool {
+	found := false
+	ast.Inspect(fd.Body, func(n ast.Node) bool {
+		ce, ok := n.(*ast.CallExpr)
+		if !ok || len(ce.Args) == 0 {
+			return true
+		}
+		if sel, ok := ce.Fun.(*ast.SelectorExpr); ok {
+			if id, ok := sel.X.(*ast.Ident); ok && id.Name == "sort" && rootIdent(ce.Args[0]) == name {
+				found = true
+			}
+		}
+		return true
+	})
+	return found
+}
+
+func genRanges(b *strings.Builder) {
+	pkgs := []string{"pkg/vdr/sidetreelongform", "pkg/vdr/sidetreelongform/dochandler", "pkg/versions/1_0/doccomposer",
+		"pkg/versions/1_0/doctransformer/didtransformer", "pkg/patch", "pkg/versions/1_0/operationparser"}
+	var items []string
+	for _, pk := range pkgs {
+		p := loadPkg(pk)
+		for _, f := range p.files {
+			for _, d := range f.Decls {
+				fd, ok := d.(*ast.FuncDecl)
+				if !ok || fd.Body == nil {
+					continue
+				}
+				mapVars := map[string]bool{}
+				ast.Inspect(fd.Body, func(n ast.Node) bool {
+					as, ok := n.(*ast.AssignStmt)
+					if !ok || len(as.Rhs) != 1 {
+						return true
+					}
+					isMap := false
+					switch r := as.Rhs[0].(type) {
+					case *ast.CallExpr:
+						if id, ok := r.Fun.(*ast.Ident); ok {
+							if id.Name == "make" && len(r.Args) > 0 {
+								_, isMap = r.Args[0].(*ast.MapType)
+							} else {
+								isMap = funcResultIsMap(p, id.Name)
+							}
+						}
+					case *ast.CompositeLit:
+						_, isMap = r.Type.(*ast.MapType)
+					}
+					if isMap {
+						if id, ok := as.Lhs[0].(*ast.Ident); ok {
+							mapVars[id.Name] = true
+						}
+					}
+					return true
+				})
+				ast.Inspect(fd.Body, func(n ast.Node) bool {
+					rs, ok := n.(*ast.RangeStmt)
+					if !ok {
+						return true
+					}
+					id, ok := rs.X.(*ast.Ident)
+					if !ok || !mapVars[id.Name] {
+						return true
+					}
+					sensitive := false
+					ast.Inspect(rs.Body, func(m ast.Node) bool {
+						switch c := m.(type) {
+						case *ast.AssignStmt:
+							// x = append(x, ...) is order-sensitive unless x is sorted afterwards in this function
+							if len(c.Rhs) == 1 {
+								if ce, ok := c.Rhs[0].(*ast.CallExpr); ok {
+									if fid, ok := ce.Fun.(*ast.Ident); ok && fid.Name == "append" {
+										target := rootIdent(c.Lhs[0])
+										if !sortedLater(fd, target) {
+											sensitive = true
+										}
+									}
+								}
+							}
+						case *ast.ReturnStmt:
+							if len(c.Results) > 0 {
+								if v, ok := c.Results[0].(*ast.Ident); !ok || v.Name != "nil" {
+									sensitive = true
+								}
+							}
+						}
+						return true
+					})
+					if sensitive {
+						items = append(items, coqString(fmt.Sprintf("%s:%s:range %s", pk[strings.LastIndex(pk, "/")+1:], fd.Name.Name, id.Name)))
+					}
+					return true
+				})
+			}
+		}
+	}
+	sort.Strings(items)
+	fmt.Fprintf(b, "Definition gen_order_sensitive_map_ranges : list string := [%s].\n", strings.Join(items, "; "))
+}
+
 func genStruct() string {
-	return "(* GENERATED by vtrans from /repo's current source. Do not edit. *)\n"
+	var b strings.Builder
+	b.WriteString("(* GENERATED by vtrans from /repo's current source. Do not edit. *)\n")
+	b.WriteString("From Coq Require Import String List.\nFrom Sidetree Require Import Sidetree.Conc.\nImport ListNotations.\nOpen Scope string_scope.\n\n")
+	genLockPrograms(&b)
+	genWrites(&b)
+	genSites(&b)
+	genRanges(&b)
+	return b.String()
 }
